@@ -62,7 +62,7 @@ theorem gating_step {g : Graph} {par : Nat} {s s' : S} {bid : Nat} {new : St}
     (hqueued : s.st bid = .queued → ∀ p ∈ s.pools, bid ∉ p.queued)
     (hord : gated new → ∀ f ∈ (g.build bid).ordering, ∀ p, g.producer f = some p → s.st p = .done) :
     ∀ b, gated (s'.st b) → ∀ f ∈ (g.build b).ordering, ∀ p, g.producer f = some p → s'.st p = .done :=
-  (set_frame inv h hprev hready hqueued hord).2.2.2.2
+  (set_frame inv.toInvCore h hprev hready hqueued hord).2.2.2.2
 
 /-- Readiness is a function of the ordering inputs only: validation edges and discovered
     dependencies (which are not part of `ordering`) impose no ordering. -/
